@@ -149,6 +149,10 @@ pub fn set_coarse(tid: usize, coarse: bool) {
     SCHED.with(|s| s.coarse[tid].set(coarse));
 }
 
+pub fn is_coarse(tid: usize) -> bool {
+    SCHED.with(|s| s.coarse[tid].get())
+}
+
 /// An explicit scheduling point of the calling program thread (used between the calls of a coarse-grained thread).
 pub fn yield_point() {
     SCHED.with(|s| {
